@@ -144,7 +144,7 @@ fn gen_step(rng: &mut Rng, max_side: u32, all_filters: &[Filt]) -> Step {
         op = 0;
     }
     Step {
-        c: RCase { pt, sw, sh, dw, dh, crop, alg, use_alpha, content: gen_content(rng, pt_kind(pt)), alpha: if pt_has_alpha(pt) { Some(gen_alpha_pat(rng)) } else { None } },
+        c: RCase { pt, sw, sh, dw, dh, crop, alg, use_alpha, content: if rng.chance(1, 5) { Content { kind: 9, seed: rng.next(), a: 0.0, b: 0.0 } } else { gen_content(rng, pt_kind(pt)) }, alpha: if pt_has_alpha(pt) { Some(gen_alpha_pat(rng)) } else { None } },
         sk,
         sp,
         dk,
